@@ -283,8 +283,26 @@ pub fn det_case(
         t.fs = fss.len() - 1;
         by_tasks.push(t);
     }
+    // A compile that fails before the subject runs on the same thread: at the first load, half-way
+    // (type error / parse error after preprocessing), or by panicking inside an exporter (one of
+    // the open known findings) - state left behind by any of them must not change the subject
     let mut failing = by_tasks[1].clone();
-    failing.faults = vec![Fault::new(FaultKind::NotFound, Sel::LoadIndex(0))];
+    let mut fr = rng.sub("failing");
+    match fr.below(4) {
+        0 => failing.faults = vec![Fault::new(FaultKind::NotFound, Sel::LoadIndex(0))],
+        n => {
+            let src = [
+                "static int a; void f() { undeclared_name = a; }\n",
+                "struct S { int x; }; void f( { S s; }\n",
+                "struct S { void f(); };\nstatic int after_the_panic;\n",
+            ][(n - 1) as usize];
+            fss.push(snippet_fs(src));
+            failing = TaskSpec::compile(fss.len() - 1, "test.rssl", subject.target);
+            failing.no_pipeline = true;
+            failing.buffer_address = subject.buffer_address;
+            failing.subject = false;
+        }
+    }
 
     let mut execs = Vec::new();
     let mut keys = rng.sub("keys");
